@@ -305,7 +305,11 @@ func (ex *Explorer) RunHarness(h *ssa.Function, name string) {
 			defer wg.Done()
 			in := NewInterp(ex.Prog, ex.cfg, ex)
 			in.harness = name
-			s, err := NewSolver(ex.SolverName, in.st, ex.TimeoutMs)
+			solverName := ex.SolverName
+			if strings.Contains(name, "_fp_") {
+				solverName = "cvc5" // floating-point harness: cvc5 decides IEEE-754 queries that stall z3
+			}
+			s, err := NewSolver(solverName, in.st, ex.TimeoutMs)
 			if err != nil {
 				ex.noteInconclusive("cannot start solver: " + err.Error())
 				return
